@@ -18,6 +18,10 @@ import (
 
 var replayProp string
 
+// replaySiblings: assertion ids the symbolic run of the current harness found violable; a native failure of a
+// different assertion counts as reproduction only if it is one of these (the model predicted it too).
+var replaySiblings map[string]bool
+
 var (
 	replayOnce sync.Once
 	replayBin  string
@@ -237,7 +241,7 @@ func replayNative(harness, target string, inputs map[string]interface{}, f *sx.F
 	// the same fact): that still is a reproduced violation of the property
 	if replayProp != "" {
 		for _, x := range r.Failed {
-			if assertionBelongsTo(x, replayProp) {
+			if assertionBelongsTo(x, replayProp) && (replaySiblings == nil || replaySiblings[x]) {
 				return true, "reproduced as " + x
 			}
 		}
